@@ -60,6 +60,7 @@ type Machine struct {
 	inLibSig bool
 	hashInjective bool
 	nowT     *Term
+	inInit   int
 	context  string // nd.Context: the swept case, part of panic fingerprints
 }
 
@@ -279,6 +280,7 @@ func (m *Machine) global(g *ssa.Global) *Node {
 		return n
 	}
 	n := m.newNode(1)
+	n.glob = true
 	n.elems[0] = m.zero(g.Type().(*types.Pointer).Elem())
 	if strings.HasSuffix(g.Type().String(), "logger.Logger") {
 		n.elems[0] = Ptr{node: m.logNode(), idx: 0}
@@ -287,7 +289,9 @@ func (m *Machine) global(g *ssa.Global) *Node {
 	if pp := g.Pkg.Pkg.Path(); g.Pkg != nil && !m.inited[g.Pkg] && initPkg(pp) {
 		m.inited[g.Pkg] = true
 		if f := g.Pkg.Func("init"); f != nil {
+			m.inInit++
 			m.call(f, nil, nil)
+			m.inInit--
 		}
 	}
 	return n
